@@ -44,6 +44,7 @@ CONSTANTS NK,         \* model keys 1..NK (concretised order-preserving by the d
           MaxSteps,   \* bound on the number of steps
           MaxWrites,  \* keys written per commit
           MaxJump,    \* a commit uses one of the MaxJump lowest admissible heights
+          Reorgs,     \* FALSE: linear histories only (every block builds on the tip's state)
           EmitOn      \* FALSE in exhaustive runs: the JSON label is not built
 
 VARIABLES chain, tipH, floor, nsteps, act
@@ -74,7 +75,9 @@ Apply(c, w) == [k \in Keys |-> IF w[k] # 0 THEN w[k] ELSE c[k]]
 
 \* parents a new block may build on: the state at a retained height; c = that state's commit
 \* (never a rollback below the first commit: a chain does not lose its genesis state)
-Parents == IF Commits = {} THEN {0} ELSE {CommitOf(x) : x \in RetH} \ {0}
+Parents == IF Commits = {} THEN {0}
+           ELSE IF ~Reorgs THEN {CommitOf(tipH)}
+           ELSE {CommitOf(x) : x \in RetH} \ {0}
 \* lowest height the block on top of parent commit c can have: above c and above some retained height
 HBound(c) == IF tipH = 0 THEN 0 ELSE Max2(c, Lo + 1)   \* (tipH > 0 with no commit cannot occur)
 HChoices(c) == FirstN({h \in Heights : h > HBound(c)}, MaxJump)
